@@ -117,7 +117,24 @@ def oracle(case, io, mo):
     got = sorted((l, s + a, s + b) for p, s in zip(parts, starts) for (a, b, l, _) in sp.flat(p) if a < b)
     if got != pieces_cut(t, cuts):
         return "the non-zero leaves of the parts are not the original leaves divided at the cut times (lost / duplicated / moved)"
+    # zero-length leaves inside sequences are kept exactly once at their time (zero-length leaves that are a direct voice of
+    # a simultaneity are dropped by Concurrence.split_at - Chronon(0).split_at returns no part - and are not required here)
+    gotz = sorted(z for p, s in zip(parts, starts) for z in zero_leaves(p, s))
+    if t[0] != "L" and gotz != sorted(zero_leaves(t)):
+        return "zero-length leaves inside sequences are not kept exactly once at their time"
     return None
+
+
+def zero_leaves(t, off=0, parent="S"):
+    """[(time, label)] of the zero-length leaves that are not a direct voice of a simultaneity"""
+    if t[0] == "L":
+        return [(off, t[2])] if t[1] == 0 and parent != "P" else []
+    out = []
+    for c in sp.kids(t):
+        out += zero_leaves(c, off, t[0])
+        if t[0] == "S":
+            off += sp.dur(c)
+    return out
 
 
 def nontrivial(case, io):
